@@ -371,7 +371,8 @@ def scratch_and_ffdc(case, note):
     if int(need(s, 'Chip ID'), 16) != case['chip'] or int(need(s, 'Signature ID'), 16) != case['sig']:
         raise Violation('C20.scratch-sig', 'scratch signature shown as %r, encoded chip %08X signature %08X'
                         % (s, case['chip'], case['sig']), sig='C20.scratch-sig')
-    raw = json.dumps(case['ffdc']).encode() + b'\x00' * case['nuls']
+    # the section holds JSON text as UTF-8: with \\u escapes or with the characters themselves
+    raw = json.dumps(case['ffdc'], ensure_ascii=(case['nuls'] % 2 == 0)).encode('utf-8') + b'\x00' * case['nuls']
     out = json.loads(guard('C20.ffdc', ud.parseUDToJson, 3, 1, memoryview(raw)))
     if out != {'Callout List FFDC': case['ffdc']}:
         raise Violation('C20.ffdc', 'call-out FFDC shown as %r, encoded %r' % (out, case['ffdc']), sig='C20.ffdc')
